@@ -26,20 +26,21 @@ def parseEntry (tok : String) : Option Entry :=
 
 def optArg (s : String) : Option (Option Bytes) := if s == "nil" then some none else (ofHex s).map some
 
-/-- `c20.har <b1|b2> <primary hex|nil> <manifest hex|nil> <ignoreErrors 0|1> <entry>*`:
+/-- `c20.har <b1|b2> <primary hex|nil> <manifest hex|nil> <ignoreErrors 0|1> <overrides: hex,hex | .> <entry>*`:
     `failed` | `panic` | `wrote <bundle hex> <exchanges as bundle.read prints them>` -/
 def handleHar (op : String) (args : List String) : Option String :=
   match op, args with
-  | "c20.har", v :: p :: m :: ig :: toks => do
+  | "c20.har", v :: p :: m :: ig :: ov :: toks => do
     let ver ← if v == "b1" then some Bundle.BVer.b1 else if v == "b2" then some Bundle.BVer.b2 else none
     let primary ← optArg p
     let manifest ← optArg m
     let entries ← toks.mapM parseEntry
-    match genBundle ver primary manifest (ig == "1") entries with
+    let overrides ← if ov == "." then some [] else (ov.splitOn ",").mapM ofHex
+    match genBundle ver primary manifest (ig == "1") overrides entries with
     | .failed => pure "failed"
     | .panic => pure "panic"
     | .wrote out =>
-      let es := (fromHar entries).getD []
+      let es := ((fromHar entries).bind (applyOverrides overrides)).getD []
       pure s!"wrote {toHex out} {if es.isEmpty then "." else ",".intercalate (es.map showExch)}"
   | _, _ => none
 
